@@ -30,7 +30,7 @@ def main(tier):
     chk.run("R-CASEDEDUP", B.casededup, r, floor=3)
     chk.run("R-SPELL", B.spell, r, floor=10)
     chk.run("R-WIDTHS", lambda: cx.widths, floor=3000)
-    chk.run("R-SIBLING", C.sibling, cx.cpp, floor=80, control=lambda: cx.cpp_control)
+    chk.run("R-SIBLING", C.sibling, cx.cpp, only_kinds=("missing", "undeducible"), floor=80, control=lambda: cx.cpp_control)
     chk.run("R-IFACE", C.iface, cx.cpp, cx.templates, floor=80)
     chk.run("R-NAMEDKINDS", P.namedkinds, r, s, cx.sites, floor=10)
     chk.run("R-RENDERINT", B.renderint, r, floor=100)
